@@ -25,11 +25,16 @@ pub enum Ev {
     Refund { amt: nat },
     /// a recovery re-sends refunded staked asset
     Recover { ps: Seq<IBCTransfer> },
+    /// E4: the refund of a failed / timed-out tracked LST transfer arrives
+    RefundLst { amt: nat },
+    /// a recovery re-sends refunded LST
+    RecoverLst { ps: Seq<IBCTransfer> },
 }
 
 pub open spec fn ev_dom(s0: StoreView, e: Ev) -> bool {
     match e {
         Ev::Stake { amount, .. } => state_dom(s0) && amount <= AMOUNT_MAX(),
+        Ev::Unstake { amount, .. } => amount <= AMOUNT_MAX() && s0.pending_batch_id is Some && pending_total(s0) <= u128::MAX - AMOUNT_MAX(),
         Ev::Submit { .. } => state_dom(s0) && s0.pending_batch_id is Some && s0.pending_batch_id->Some_0 < u64::MAX,
         Ev::Rewards { env, info, .. } => rewards_dom(s0, env, info),
         _ => true,
@@ -56,13 +61,15 @@ pub open spec fn ev_store(s0: StoreView, e: Ev, s1: StoreView) -> bool {
         Ev::Frame => same_books(s0, s1),
         Ev::Refund { amt } => same_books(s0, s1),
         Ev::Recover { ps } => same_books(s0, s1),
+        Ev::RefundLst { amt } => same_books(s0, s1),
+        Ev::RecoverLst { ps } => same_books(s0, s1),
     }
 }
 /// what the environment does to the ledger for that step (E1-E4 of DESIGN section 4)
 pub open spec fn led_of(l0: Ledger, s0: StoreView, e: Ev) -> Ledger {
     match e {
         Ev::Stake { amount, .. } => led_stake(l0, s0, amount),
-        Ev::Unstake { .. } => l0,
+        Ev::Unstake { amount, .. } => led_unstake(l0, amount),
         Ev::Submit { .. } => led_submit(l0, s0),
         Ev::Withdraw { info, batch_id, .. } => led_withdraw(l0, s0, info, batch_id),
         Ev::Rewards { info, .. } => led_rewards(l0, s0, info),
@@ -71,6 +78,8 @@ pub open spec fn led_of(l0: Ledger, s0: StoreView, e: Ev) -> Ledger {
         Ev::Frame => l0,
         Ev::Refund { amt } => Ledger { bal: l0.bal + amt, refunded: l0.refunded + amt, ..l0 },
         Ev::Recover { ps } => Ledger { bal: l0.bal - seq_total(ps), refunded: l0.refunded - seq_total(ps), ..l0 },
+        Ev::RefundLst { amt } => Ledger { lst_bal: l0.lst_bal + amt, lst_refunded: l0.lst_refunded + amt, ..l0 },
+        Ev::RecoverLst { ps } => Ledger { lst_bal: l0.lst_bal - seq_total(ps), lst_refunded: l0.lst_refunded - seq_total(ps), ..l0 },
     }
 }
 pub open spec fn ev_step(s0: StoreView, l0: Ledger, e: Ev, s1: StoreView, l1: Ledger) -> bool {
@@ -91,7 +100,9 @@ pub open spec fn ev_of(s0: StoreView, msg: crate::msg::ExecuteMsg, env: Env, inf
         crate::msg::ExecuteMsg::RecoverPendingIbcTransfers { paginated, selected_packets, receiver } => {
             let page = match paginated { Some(p) => p, None => false };
             let ps = choose|ps: Seq<IBCTransfer>| #[trigger] recover_set(s0, selected_packets, recover_receiver(cfg(s0), receiver), page, ps);
-            if ps.len() > 0 && ps[0].amount.denom@ == cfg(s0).protocol_chain_config.ibc_token_denom@ { Ev::Recover { ps } } else { Ev::Frame }
+            if ps.len() > 0 && ps[0].amount.denom@ == cfg(s0).protocol_chain_config.ibc_token_denom@ { Ev::Recover { ps } }
+            else if ps.len() > 0 && ps[0].amount.denom@ == cfg(s0).liquid_stake_token_denom@ { Ev::RecoverLst { ps } }
+            else { Ev::Frame }
         },
         _ => Ev::Frame,
     }
@@ -104,7 +115,7 @@ pub open spec fn history(tr: Seq<(StoreView, Ledger)>, evs: Seq<Ev>) -> bool {
     &&& forall|i: int| 0 <= i < evs.len() ==> ev_dom((#[trigger] tr[i]).0, evs[i]) && ev_step(tr[i].0, tr[i].1, evs[i], tr[i + 1].0, tr[i + 1].1)
 }
 
-pub open spec fn zero_ledger() -> Ledger { Ledger { fwd: 0, set_aside: 0, swept: 0, supply: 0, bal: 0, owed_batches: 0, refunded: 0 } }
+pub open spec fn zero_ledger() -> Ledger { Ledger { fwd: 0, set_aside: 0, swept: 0, supply: 0, bal: 0, owed_batches: 0, refunded: 0, lst_bal: 0, lst_refunded: 0 } }
 
 /// the state `instantiate` writes (all totals zero) satisfies every accounting invariant with the empty ledger
 // [C01.history-init] [C02.history-init] [C03.history-init]
@@ -125,7 +136,7 @@ pub proof fn lemma_history_step(s0: StoreView, l0: Ledger, e: Ev, s1: StoreView,
             lemma_stake_preserves(s0, env, info, amount, mint_to, flag, s1, ms, l0);
             lemma_stake_solvent(s0, env, info, amount, mint_to, flag, s1, ms, l0);
         }
-        Ev::Unstake { info, amount, ms } => { lemma_unstake_preserves(s0, info, amount, s1, ms, l0); }
+        Ev::Unstake { info, amount, ms } => { lemma_unstake_preserves(s0, info, amount, s1, ms, led_unstake(l0, amount)); lemma_unstake_preserves(s0, info, amount, s1, ms, l0); }
         Ev::Submit { env, ms } => { lemma_submit_preserves(s0, env, s1, ms, l0); lemma_submit_solvent(s0, env, s1, ms, l0); }
         Ev::Withdraw { env, info, batch_id, ms } => { lemma_withdraw_preserves(s0, env, info, batch_id, s1, ms, l0); }
         Ev::Rewards { env, info, ms } => { lemma_rewards_preserves(s0, env, info, s1, ms, l0); }
@@ -134,6 +145,8 @@ pub proof fn lemma_history_step(s0: StoreView, l0: Ledger, e: Ev, s1: StoreView,
         Ev::Frame => { }
         Ev::Refund { amt } => { }
         Ev::Recover { ps } => { }
+        Ev::RefundLst { amt } => { }
+        Ev::RecoverLst { ps } => { }
     }
 }
 
@@ -162,11 +175,12 @@ pub proof fn theorem_all_histories(tr: Seq<(StoreView, Ledger)>, evs: Seq<Ev>)
     }
 }
 
-/// C06: exactly one pending batch with the highest id, at every point of every history
-// [C06.all-histories]
+/// C06: exactly one pending batch with the highest id, and C03 (second half): the contract's own LST balance is
+/// the pending batch total plus refunded LST transfers - at every point of every history
+// [C06.all-histories] [C03.lst-balance-all-histories]
 pub proof fn theorem_batch_table(tr: Seq<(StoreView, Ledger)>, evs: Seq<Ev>)
-    requires history(tr, evs), invb(tr[0].0),
-    ensures forall|i: int| 0 <= i < tr.len() ==> invb((#[trigger] tr[i]).0),
+    requires history(tr, evs), invb(tr[0].0), inv3b(tr[0].0, tr[0].1),
+    ensures forall|i: int| 0 <= i < tr.len() ==> invb((#[trigger] tr[i]).0) && inv3b(tr[i].0, tr[i].1),
     decreases evs.len(),
 {
     if evs.len() > 0 {
@@ -180,19 +194,19 @@ pub proof fn theorem_batch_table(tr: Seq<(StoreView, Ledger)>, evs: Seq<Ev>)
         assert(tr0[0] == tr[0]);
         theorem_batch_table(tr0, evs0);
         assert(tr0[n - 1] == tr[n - 1]);
-        let s0 = tr[n - 1].0; let s1 = tr[n].0;
+        let s0 = tr[n - 1].0; let s1 = tr[n].0; let l0 = tr[n - 1].1;
         assert(ev_dom(tr[n - 1].0, evs[n - 1]) && ev_step(tr[n - 1].0, tr[n - 1].1, evs[n - 1], tr[n].0, tr[n].1));
         match evs[n - 1] {
-            Ev::Unstake { info, amount, ms } => { lemma_invb_unstake(s0, info, amount, s1, ms); }
-            Ev::Submit { env, ms } => { lemma_invb_submit(s0, env, s1, ms); }
-            Ev::Unstaked { env, info, batch_id, ms } => { lemma_invb_unstaked(s0, env, info, batch_id, s1, ms); }
+            Ev::Unstake { info, amount, ms } => { lemma_invb_unstake(s0, info, amount, s1, ms); lemma_lst_unstake(s0, info, amount, s1, ms, l0); }
+            Ev::Submit { env, ms } => { lemma_invb_submit(s0, env, s1, ms); lemma_lst_submit(s0, env, s1, ms, l0); }
+            Ev::Unstaked { env, info, batch_id, ms } => { lemma_invb_unstaked(s0, env, info, batch_id, s1, ms); lemma_lst_unstaked(s0, env, info, batch_id, s1, ms, l0); }
             Ev::Stake { .. } => { }
             Ev::Rewards { .. } => { }
             Ev::Withdraw { .. } => { }
             Ev::FeeWithdraw { .. } => { }
             _ => { assert(s1.batches == s0.batches && s1.pending_batch_id == s0.pending_batch_id); }
         }
-        assert forall|i: int| 0 <= i < tr.len() implies invb((#[trigger] tr[i]).0) by {
+        assert forall|i: int| 0 <= i < tr.len() implies invb((#[trigger] tr[i]).0) && inv3b(tr[i].0, tr[i].1) by {
             if i < n { assert(tr0[i] == tr[i]); }
         }
     }
